@@ -24,7 +24,7 @@ Definition w_ods_rows (c : list (str * option Z) * xml * option (list (list val)
 (* witnesses mention dates by an arbitrary token: VOther tokens are not compared *)
 Definition val_eqb_w (a b : val) : bool := match a, b with VOther _, VOther _ => true | _, _ => val_eqb a b end.
 Definition xcell_eqb_w (a b : xcell) : bool :=
-  val_eqb_w (xc_val a) (xc_val b) && str_eqb (xc_str a) (xc_str b) && opt_eqb str_eqb (xc_iso a) (xc_iso b).
+  val_eqb_w (xc_val a) (xc_val b) && str_eqb (xc_str a) (xc_str b) && opt_eqb str_eqb (xc_conv a) (xc_conv b).
 Definition w_xlsx (is_ws : N -> bool) (w : list (list xcell)) (c : list (list xcell) * list (list val)) : bool :=
   list_eqb (list_eqb xcell_eqb_w) (fst c) w && corr_xlsx is_ws c.
 Definition lcell_eqb (a b : lcell) : bool := val_eqb (lc_native a) (lc_native b) && str_eqb (lc_header a) (lc_header b).
